@@ -103,6 +103,27 @@ Definition bind_S (l : llist) (args : list arg) : outcome :=
       end
   end.
 
+(* ---- which default forms are evaluated ----
+   A default form is evaluated exactly when its parameter gets no argument: the &optional parameters beyond the
+   supplied positional arguments, the &key parameters whose keyword is not among the key arguments, every &aux
+   parameter - from left to right, and none at all when the call is rejected. *)
+Definition has_def (xd : N * option Z) : bool := match snd xd with Some _ => true | None => false end.
+Definition pairs_of (l : llist) (args : list arg) : list (N * arg) :=
+  match l_key l with
+  | Some _ => let r2 := skipn (length (l_req l) + length (l_opt l)) args in
+              match key_pairs (S (length r2)) r2 with Some ps => ps | None => [] end
+  | None => []
+  end.
+Definition evals_S (l : llist) (args : list arg) : list N :=
+  match bind_S l args with
+  | OErr _ => []
+  | OBound _ =>
+      map fst (filter has_def (skipn (length args - length (l_req l)) (l_opt l))) ++
+      map fst (filter (fun kd => has_def kd && match first_pair (fst kd) (pairs_of l args) with Some _ => false | None => true end)
+                      (match l_key l with Some ks => ks | None => [] end)) ++
+      map fst (filter has_def (l_aux l))
+  end.
+
 (* ---- the guard ---- *)
 (* The one place left where the repaired binder does not bind as the language prescribes: a lambda list with
    both &rest and &key.  slip ends the rest list where the keyword arguments begin (its own TestDynamicAmps
